@@ -41,10 +41,16 @@ PROPS = {
     "C06": {"id": "C06", "source": "c06.cpp", "files": INT_VEC_FILES + SCALAR_FILES[:8] + ["include/avel/impl/Constants.hpp"], "min_configs": {"quick": 8, "thorough": 30},
             "configs": cfgs_scalar_sets},
     "C07": {"id": "C07", "source": "c07.cpp", "files": INT_VEC_FILES + FLT_VEC_FILES + SCALAR_FILES, "min_configs": {"quick": 8, "thorough": 30}},
+    "C05": {"id": "C05", "source": "c05.cpp", "files": INT_VEC_FILES, "min_configs": {"quick": 8, "thorough": 30}, "scale": {"quick": 300, "thorough": 300}},
     "C02": {"id": "C02", "source": "c02.cpp", "files": INT_VEC_FILES + FLT_VEC_FILES, "min_configs": {"quick": 8, "thorough": 30}, "digest_binding": True},
 }
 
 MANIFEST_TEXT = {
+    "C05": {
+        "technique": "property-based testing: enumerated (all 8-bit pairs, lattice cross products, quotient-length classes; all 16-bit pairs in thorough) + rapidcheck (dividend, divisor) vectors with zero-divisor and MIN/-1 lanes injected into other lanes, __int128 division oracle + q*y+r==x relation, signal guard, per build configuration",
+        "level": "Generated-input search over (dividend, divisor) lanes for div, /, %, /=, %= on every integer vector type in every configuration; zero divisors (and MIN/-1) are placed in rotating subsets of the other lanes of wide vectors, executed under a SIGFPE/SIGSEGV guard and not compared, so both 'no trap' and 'no disturbance of other lanes' are observed; quotient-length classes drive every early-exit stage of the shift-subtract emulations.",
+        "note": "Trusted: __int128 division oracle, host CPU, compilers. Width-1 vectors never receive a zero divisor or MIN/-1. A trap while a MIN/-1 lane is present is tolerated (the property excepts that lane and says nothing about it trapping). Exhaustive only for 8-bit (quick) / 16-bit (thorough) pairs.",
+    },
     "C07": {
         "technique": "property-based testing: enumerated (all 8-bit pairs, all 2^W masks for W<=16, lattice cross products; all 16-bit pairs in thorough) + rapidcheck operands and masks against exact integer / bit-pattern oracles and validity predicates, per build configuration",
         "level": "Generated-input search over masks x operand values for blend/keep/clear/min/max/minmax/clamp/abs/neg_abs/negate/average/midpoint/copysign, vector forms on all 40 types and the scalar overloads, in every configuration of the arm cover (quick) / lattice (thorough); integer oracles in __int128 (average = truncation of the exact sum halved, midpoint = a + trunc((b-a)/2)); float sign operations compared bit-for-bit incl. zeros, infinities, NaN payloads; float min/max/clamp by a validity predicate (bit-equal to an operand, numerically the right one, either zero accepted).",
